@@ -328,6 +328,9 @@ impl Oracle {
                 continue;
             }
             self.probe("certificates_sealed");
+            if let Some(e) = &c.entity {
+                self.probe(&format!("certificates_sealed_{}", e.kind()));
+            }
             if self.is("C14") {
                 self.check_new_certificate_c14(w, c, &certs, step);
             }
